@@ -77,6 +77,9 @@ class StmtMixin:
         return c
 
     def vardecl(self, d, ind):
+        tq = (d.get('type', {}).get('desugaredQualType') or d.get('type', {}).get('qualType') or '')
+        if re.match(r'(const )?std::(lock_guard|scoped_lock|unique_lock|shared_lock)<', tq):
+            return [f'{ind}/* lock object dropped (sequential semantics): {d.get("name")} */']
         t = self.tyof(d)
         name = self.local_name(d)
         isref = t.is_ref()
